@@ -356,15 +356,26 @@ pub fn dot_completions(
             .ok()?;
     let index = HirResultsIndex::new(&hir_table);
     let expr_id = index.expr_id(&lhs_ptr)?;
-    let ty = normalize_completion_ty(results.expr_ty(expr_id)?.clone());
+    let ty = results.expr_ty(expr_id)?.clone();
     let items = completions_for_type(&genv, &ty);
     Some(filter_dot_items(items, &prefix))
 }
 
-fn normalize_completion_ty(ty: tast::Ty) -> tast::Ty {
-    match ty {
-        tast::Ty::TRef { elem } => normalize_completion_ty(*elem),
-        other => other,
+/// `x.m(..)` passes `x` as the first argument: a function of the impl can be offered after
+/// `x.` only if it has a first parameter of the receiver's type constructor (an associated
+/// function such as `Point::new` has none).
+fn takes_receiver(method_ty: &tast::Ty, receiver_ty: &tast::Ty) -> bool {
+    let tast::Ty::TFunc { params, .. } = method_ty else {
+        return false;
+    };
+    match params.first() {
+        Some(tast::Ty::TParam { .. }) => true,
+        Some(first) => {
+            first == receiver_ty
+                || (type_constructor_name(first).is_some()
+                    && type_constructor_name(first) == type_constructor_name(receiver_ty))
+        }
+        None => false,
     }
 }
 
@@ -390,13 +401,17 @@ fn completions_for_type(genv: &GlobalTypeEnv, ty: &tast::Ty) -> Vec<DotCompletio
         .inherent_impls
         .get(&crate::env::InherentImplKey::Exact(ty.clone()))
     {
-        methods.extend(impl_def.methods.iter().map(|(method_name, method_scheme)| {
-            DotCompletionItem {
-                name: method_name.clone(),
-                kind: DotCompletionKind::Method,
-                detail: Some(method_scheme.ty.to_pretty(80)),
-            }
-        }));
+        methods.extend(
+            impl_def
+                .methods
+                .iter()
+                .filter(|(_, method_scheme)| takes_receiver(&method_scheme.ty, ty))
+                .map(|(method_name, method_scheme)| DotCompletionItem {
+                    name: method_name.clone(),
+                    kind: DotCompletionKind::Method,
+                    detail: Some(method_scheme.ty.to_pretty(80)),
+                }),
+        );
     }
     if let tast::Ty::TApp { ty, .. } = ty
         && let Some(base_name) = ty.constr_name()
@@ -406,13 +421,17 @@ fn completions_for_type(genv: &GlobalTypeEnv, ty: &tast::Ty) -> Vec<DotCompletio
             .inherent_impls
             .get(&crate::env::InherentImplKey::Constr(base_name))
         {
-            methods.extend(impl_def.methods.iter().map(|(method_name, method_scheme)| {
-                DotCompletionItem {
-                    name: method_name.clone(),
-                    kind: DotCompletionKind::Method,
-                    detail: Some(method_scheme.ty.to_pretty(80)),
-                }
-            }));
+            methods.extend(
+                impl_def
+                    .methods
+                    .iter()
+                    .filter(|(_, method_scheme)| takes_receiver(&method_scheme.ty, ty))
+                    .map(|(method_name, method_scheme)| DotCompletionItem {
+                        name: method_name.clone(),
+                        kind: DotCompletionKind::Method,
+                        detail: Some(method_scheme.ty.to_pretty(80)),
+                    }),
+            );
         }
     }
     methods.sort_by(|a, b| a.name.cmp(&b.name));
@@ -501,7 +520,6 @@ fn type_constructor_name(ty: &tast::Ty) -> Option<&str> {
     match ty {
         tast::Ty::TEnum { name } | tast::Ty::TStruct { name } => Some(name.as_str()),
         tast::Ty::TApp { ty, .. } => type_constructor_name(ty),
-        tast::Ty::TRef { elem } => type_constructor_name(elem),
         _ => None,
     }
 }
